@@ -881,7 +881,9 @@ impl Mat4 {
         let f = 1.0 / math::tan(0.5 * fov_y_radians);
         let a = f / aspect_ratio;
         let b = (z_near + z_far) * inv_length;
-        let c = (2.0 * z_near * z_far) * inv_length;
+        // z_far * inv_length is of order one: forming z_near * z_far first overflows (or underflows) for very large
+        // (or very small) near and far planes although the result, about -2 * z_near, is representable
+        let c = (2.0 * z_near) * (z_far * inv_length);
         Self::from_cols(
             Vec4::new(a, 0.0, 0.0, 0.0),
             Vec4::new(0.0, f, 0.0, 0.0),
